@@ -56,6 +56,7 @@ type Ctx struct {
 	cfgMemo        *bool
 	exprMemo       *bool
 	retMemo        *bool
+	rollMemo       map[string]bool
 }
 
 // LoadOpts selects the build configuration and an optional overlay.
